@@ -429,48 +429,22 @@ def simplify_constraints(constraints):
     if not constraints:
         return unequal_constraints
 
-    # Iterate over the current and next contiguous constraints of this list:
-    i = 0
-    j = 0
-
-    while i < len(constraints) - 1:
-        j = i + 1
-
-        cur = constraints[i]
-        nxt = constraints[j]
-        cur_comp = cur.comparator
-        nxt_comp = nxt.comparator
-
-        # If current comparator is ">" or ">=" and next comparator is "=", ">" or ">=",
-        if cur_comp in (">", ">=") and nxt_comp in ("=", ">", ">="):
-            # discard next constraint
-            constraints.pop(j)
-
-        # If current comparator is "=", "<" or "<="  and next comparator is <" or <=",
-        if cur_comp in ("=", "<", "<=") and nxt_comp in ("<", "<="):
-            # discard current constraint
-            constraints.pop(i)
-            # Previous constraint becomes current if if exists.
-            if i > 0:
-                i -= 1
-
-        # If there is a previous constraint:
-        if i > 0:
-
-            prv = constraints[i - 1]
-            prv_comp = prv.comparator
-
-            # If previous comparator is ">" or ">=" and current comparator is "=", ">" or ">=",
-            if prv_comp in (">", ">=") and cur_comp in ("=", ">", ">="):
-                # discard current constraint
-                constraints.pop(i)
-
-            # If previous comparator is "=", "<" or "<=" and current comparator is <" or <=",
-            if prv_comp in ("=", "<", "<=") and cur_comp in ("<", "<="):
-                # discard previous constraint.
-                constraints.pop(i - 1)
-
-        i += 1
+    # Walk the constraints in version order and keep a stack of the retained
+    # constraints:
+    # - a constraint with "=", "<" or "<=" followed by a "<" or "<=" is redundant
+    # - a constraint with "=", ">" or ">=" that follows a ">" or ">=" is redundant
+    retained = []
+    for constraint in constraints:
+        comp = constraint.comparator
+        if comp in ("<", "<="):
+            # discard the previous constraints made redundant by this one
+            while retained and retained[-1].comparator in ("=", "<", "<="):
+                retained.pop()
+        elif comp in ("=", ">", ">=") and retained and retained[-1].comparator in (">", ">="):
+            # discard this constraint
+            continue
+        retained.append(constraint)
+    constraints = retained
 
     # Concatenate the "unequal constraints" list and the filtered "constraints" list
     # Sort by version and return.
